@@ -35,6 +35,17 @@ impl Driven for D {
          _ => panic!("verif harness: unknown relation {}", rel),
       }
    }
+   fn clear(&mut self, rel: &str) {
+      match rel {
+         "e" => { self.0.e = Default::default(); },
+         "d" => { self.0.d = Default::default(); },
+         "at1" => { self.0.at1 = Default::default(); },
+         "cnt2" => { self.0.cnt2 = Default::default(); },
+         "nk" => { self.0.nk = Default::default(); },
+         "pairs" => { self.0.pairs = Default::default(); },
+         _ => panic!("verif harness: unknown relation {}", rel),
+      }
+   }
    fn run(&mut self) { self.0.run(); }
    fn dump(&self) -> Value {
       let mut m: Vec<(String, Value)> = vec![];
